@@ -529,3 +529,40 @@ package diff
 //@ loop 3 step !vs_has(params2, paramName1) ==> len(sd.Diffs) == old(len(sd.Diffs))+1 && sd.Diffs[len(sd.Diffs)-1].DifferenceLocation.Response == 0 && sd.Diffs[len(sd.Diffs)-1].Code == vs_deletedParamCode(param1.Required)
 //@ loop 4 step !vs_has(params1, paramName2) ==> len(sd.Diffs) == old(len(sd.Diffs))+1 && sd.Diffs[len(sd.Diffs)-1].DifferenceLocation.Response == 0 && sd.Diffs[len(sd.Diffs)-1].Code == vs_addedParamCode(param2.Required) && (param2.Required ==> sd.Diffs[len(sd.Diffs)-1].Compatibility == Breaking)
 //@ loop 4 step vs_has(params1, paramName2) ==> vs_called("compareParams") && len(sd.Diffs) >= old(len(sd.Diffs))
+
+// ---- the pairwise traversal visits every section ----
+
+//@ func (*SpecAnalyser).Analyse
+//@ props C12 C13 C14
+//@ noinline
+//@ requires sd != nil && spec1 != nil && spec2 != nil && spec1.Paths != nil && spec2.Paths != nil
+//@ ensures result == nil
+//@ ensures vs_called("getURLMethodsFor") && vs_called("analyseSpecMetadata") && vs_called("analyseEndpoints") && vs_called("analyseRequestParams") && vs_called("analyseEndpointData") && vs_called("analyseResponseParams") && vs_called("analyseExtensions") && vs_called("AnalyseDefinitions")
+//@ ensures vs_callOrder("getURLMethodsFor") < vs_callOrder("analyseEndpoints") && vs_callOrder("getURLMethodsFor") < vs_callOrder("analyseRequestParams") && vs_callOrder("getURLMethodsFor") < vs_callOrder("analyseResponseParams")
+//@ ensures vs_callOrder("analyseRequestParams") < vs_callOrder("AnalyseDefinitions") && vs_callOrder("analyseResponseParams") < vs_callOrder("AnalyseDefinitions")
+
+//@ func (*SpecAnalyser).analyseEndpoints
+//@ props C12 C13 C14
+//@ requires sd != nil && vs_opsOK(sd.urlMethods1)
+//@ ensures vs_called("findDeletedEndpoints") && vs_called("findAddedEndpoints")
+
+//@ func toMap
+//@ props C12 C13 C14
+//@ safety
+//@ modifies nothing
+//@ requires item != nil
+//@ ensures result != nil && vs_fresh(result)
+//@ ensures vs_all(func(m string) bool { return vs_has(result, m) ==> result[m] != nil })
+//@ ensures vs_has(result, "get") == (item.Get != nil) && vs_has(result, "post") == (item.Post != nil) && vs_has(result, "put") == (item.Put != nil) && vs_has(result, "patch") == (item.Patch != nil) && vs_has(result, "head") == (item.Head != nil) && vs_has(result, "options") == (item.Options != nil) && vs_has(result, "delete") == (item.Delete != nil)
+//@ ensures item.Get != nil ==> result["get"] == item.Get
+//@ ensures item.Delete != nil ==> result["delete"] == item.Delete
+
+//@ func getURLMethodsFor
+//@ props C12 C13 C14
+//@ safety
+//@ modifies nothing
+//@ requires spec != nil && spec.Paths != nil
+//@ ensures result != nil && vs_fresh(result) && vs_opsOK(result)
+//@ loop 1 invariant returnURLMethods != nil && vs_fresh(returnURLMethods) && vs_opsOK(returnURLMethods)
+//@ loop 2 invariant returnURLMethods != nil && vs_fresh(returnURLMethods) && vs_opsOK(returnURLMethods)
+//@ loop 2 invariant vs_all(func(m string) bool { return vs_has(opsMap, m) ==> opsMap[m] != nil })
